@@ -92,7 +92,7 @@ func genC12(r *simrt.Rand, tier string) json.RawMessage {
 			case 0:
 				h.Vec = pick("empty", "short", "long", "nan", "inf", "collinear")
 			case 1:
-				h.Meta = pick("longkey", "longval", "many", "widekey", "wideval")
+				h.Meta = pick("longkey", "longval", "many", "widekey", "wideval", "key256", "val65536", "many65536")
 			case 2:
 				h.ItemId = pick("empty", "short", "long")
 			case 3:
@@ -113,7 +113,7 @@ func genC12(r *simrt.Rand, tier string) json.RawMessage {
 		h.ItemId = pick("good", "good", "good", "empty", "short", "long")
 		h.Slot = r.Intn(3)
 		h.Vec = pick("good", "good", "empty", "short", "long", "nan", "inf", "collinear", "collinear")
-		h.Meta = pick("none", "small", "longkey", "longval", "many", "widekey", "wideval", "edgekey")
+		h.Meta = pick("none", "small", "longkey", "longval", "many", "widekey", "wideval", "edgekey", "key256", "val65536", "many65536")
 		h.K = []uint32{0, 1, 5, 1 << 20, math.MaxUint32}[r.Intn(5)]
 		h.Items = []int{0, 1, 3, 100, 101}[r.Intn(5)]
 		h.Dup = r.Bool(0.3)
@@ -177,6 +177,16 @@ func mkMeta(kind string) map[string]string {
 		return map[string]string{strings.Repeat("\u00e9", 200): "v"}
 	case "wideval": // 30000 characters, 90000 bytes
 		return map[string]string{"v": strings.Repeat("\u20ac", 30000)}
+	case "key256": // one byte over the key limit
+		return map[string]string{strings.Repeat("k", 256): "v"}
+	case "val65536": // one byte over the value limit
+		return map[string]string{"v": strings.Repeat("x", 65536)}
+	case "many65536": // one entry over the count limit
+		m := map[string]string{}
+		for i := 0; i < 65536; i++ {
+			m[fmt.Sprintf("k%d", i)] = ""
+		}
+		return m
 	case "edgekey": // exactly at the limits: legal
 		return map[string]string{strings.Repeat("k", 255): strings.Repeat("v", 65535)}
 	case "many":
